@@ -27,6 +27,7 @@ ob_b1.wants_all_cores = True
 def obligations(ctx: Ctx):
     P = PROPERTY
     return [
+        Ob(f"{P}.F4.frontmatter", "F", "frontmatter stripping cuts and glues on the same literal newline: the body passes through byte for byte", ["octave_mcp.core.parser:_strip_yaml_frontmatter"], LX.ob_frontmatter_split_join),
         Ob(f"{P}.F3.tokens", "F", "tokenize only appends to its token list (one documented in-place % merge): an emitted token is never replaced", LX.FUNCS_LEX, LX.ob_token_stream_frame),
         Ob(f"{P}.R0", "R", "tokenize control skeleton matches the step model", LX.FUNCS_LEX, LX.ob_skeleton),
         Ob(f"{P}.R1.var", "R", "bare $variables re-lex to one VARIABLE token", LX.FUNCS_EMIT + LX.FUNCS_LEX, partial(LX.ob_var, oid=f"{P}.R1")),
